@@ -29,7 +29,7 @@ while read -r id props; do
     t1=$(date +%s)
     echo "$o" | grep -a "^VIOLATION\|harness=\|NO-VERDICT\|HARNESS-BROKEN" | head -6 > $out/check-$p.txt
     v=$(echo "$o" | grep -ac "^VIOLATION")
-    a=$(echo "$o" | grep -a 'assertion=' | sed 's/.*harness=\([^ ]*\) assertion=\([^ ]*\).*confirmed=\([^ ]*\).*/\1:\2:\3/' | sort -u | tr '\n' ' ')
+    a=$(echo "$o" | grep -a '^  harness=' | sed 's/.*harness=\([^ ]*\) assertion=\([^ ]*\).*confirmed=\([^ ]*\).*/\1:\2:\3/' | sort -u | tr '\n' ' ')
     echo "$id check $p: rc=$rc violations=$v $a ($((t1-t0))s)"
     res="$res$p $rc $v $((t1-t0)) $a;"
   done
